@@ -69,6 +69,7 @@ def run_task(task):
         except Exception as e:
             msg = '%s: %s' % (type(e).__name__, e)
             tb = traceback.format_exc(limit=12)
+            res['exception_where'] = _repo_where(e)
             if 'not modelled' in msg or 'unmodelled' in msg or 'realised' in msg or '/verif/symtt/' in tb.split('\n')[-3]:
                 res['error'] = msg
                 res['traceback'] = tb
@@ -99,7 +100,7 @@ def run_task(task):
         # ---- replay counterexamples on the real code
         bad = [o for o in res['obligations'] if o['status'] in ('sat', 'failed')]
         if bad or res['exception']:
-            res['replay'] = _replay(prop, name, params, bad, res['exception'], seed, opts.get('replay_random', 2))
+            res['replay'] = _replay(prop, name, params, bad, res['exception'], seed, opts.get('replay_random', 2), res.get('exception_where'))
         # ---- translation validation of the shim on this scenario (sampled)
         if opts.get('tv') and not res['error'] and not res['exception'] and not bad:
             res['tv'] = _tv(prop, name, params, R, sc, seed)
@@ -108,6 +109,17 @@ def run_task(task):
         res['traceback'] = traceback.format_exc(limit=8)
     res['wall_s'] = time.time() - t0
     return res
+
+
+def _repo_where(e):
+    """innermost frame of the traceback that lies in /repo: 'file:function'"""
+    import traceback as _tb
+    from symtt.loader import REPO
+    w = None
+    for fs in _tb.extract_tb(e.__traceback__):
+        if fs.filename.startswith(REPO):
+            w = '%s:%s' % (os.path.relpath(fs.filename, REPO), fs.name)
+    return w
 
 
 def _size(shape):
@@ -140,11 +152,11 @@ def _base(label):
     return re.sub(r' \[(T0 == spec|cut \d+/\d+: A == B)\]$', '', label)
 
 
-def _replay(prop, name, params, bad, exception, seed, n_random=2):
+def _replay(prop, name, params, bad, exception, seed, n_random=2, where=None):
     """try the solver's inputs, then a few random inputs; a violation is confirmed when an obligation with
     the same base label fails (or the same exception type is raised) on the unmodified code"""
     out = {'confirmed': [], 'unconfirmed': [], 'attempts': 0}
-    want = sorted(set(_base(o['label']) for o in bad))
+    want = sorted(set(o.get('group') or _base(o['label']) for o in bad))
     cands = []
     for o in bad:
         if o.get('model_inputs'):
@@ -166,7 +178,7 @@ def _replay(prop, name, params, bad, exception, seed, n_random=2):
             if b in want and b not in confirmed:
                 confirmed[b] = path
                 keep = True
-        if exception and r.get('exception') and r['exception'].split(':')[0] == exception.split(':')[0] and not exc_confirmed:
+        if exception and r.get('exception') and not exc_confirmed and (r['exception'].split(':')[0] == exception.split(':')[0] or (where and r.get('exception_where') == where)):
             exc_confirmed = path
             keep = True
         if not keep:
@@ -205,6 +217,8 @@ def _tv(prop, name, params, R, sc, seed):
     ctx.tv_policy = True
     try:
         sc.fn(ctx, **params)
+    except core.SkipTV:
+        return {'status': 'agree', 'compared': 0, 'bad': [], 'skipped': True}
     except Exception as e:
         return {'status': 'error', 'detail': 'shimmed concrete run raised %s: %s' % (type(e).__name__, e),
                 'traceback': traceback.format_exc(limit=6)}
@@ -336,7 +350,7 @@ def report(prop, tier, seed, results, meta, wall, scens):
             elif o['status'] == 'unknown':
                 inconclusive.append('%s %s: %s (solver unknown)' % (r['scenario'], json.dumps(r['params']), o['label']))
             else:
-                b = _base(o['label'])
+                b = o.get('group') or _base(o['label'])
                 if b in conf:
                     k = match_known(known, prop, r['scenario'], r['params'], b)
                     if k:
